@@ -73,9 +73,10 @@ class Ctx:
                 ok = ok and rc == 0
                 msg += (out + err)[-3000:] if rc else ''
             res['drivers'] = (ok, msg)
-            # native build of the prof driver (the longest op streams); optional: lean_driver falls back to the interpreter
-            if ok and 'Prof' in drivers:
-                run_cmd(['lake', 'build', 'prof_driver'], cwd=LEAN_DIR, timeout=3000)
+            # native builds of the drivers (none imports Mathlib); optional: lean_driver falls back to the interpreter when one is missing or stale
+            if ok:
+                for d in drivers:
+                    run_cmd(['lake', 'build', d.lower() + '_driver'], cwd=LEAN_DIR, timeout=3000)
         return res
 
     def theorems_in(self, relpath):
